@@ -94,7 +94,9 @@ Clause(i, cl, nn, old, new, seen) ==
                      ELSE LET st == CHOOSE st \in bad : TRUE
                           IN  Bad(i, cl, nn, [store |-> st, eqs |-> SetToSeq(badAt(st))])
       [] cl.t = "supp" ->         \* every value variable v holds at any point is in vals
-            LET vals == {cl.vals[j].a : j \in 1..Len(cl.vals)}
+            \* cl.start is the variable's start value: what it "holds" before its first assignment is not a value
+            \* the program gave it (the harness makes start values of uninitialised variables distinctive)
+            LET vals == {cl.vals[j].a : j \in 1..Len(cl.vals)} \cup {cl.start.a}
                 bad  == Support(cl.v, seen[cl.pi]) \ vals
             IN  IF bad = {} THEN OK ELSE Bad(i, cl, nn, CHOOSE x \in bad : TRUE)
       [] cl.t = "equiv" ->        \* same joint law of the listed variables
@@ -103,8 +105,13 @@ Clause(i, cl, nn, old, new, seen) ==
             IN  IF pa = pb THEN OK
                 ELSE Bad(i, cl, nn, [onlyA |-> SetToSeq(pa \ pb), onlyB |-> SetToSeq(pb \ pa)])
       [] cl.t = "cmom" ->         \* E[poly ; cond] / P(cond) = p/q, when P(cond) > 0
-            LET y == Prob(cl.cond, new[cl.pi]).a
-                x == MomentOn(cl.poly, cl.cond, new[cl.pi]).a
+            \* lag = 1: the claim made for iteration nn is compared with the distribution after nn - 1
+            \* iterations (used to recognise the known one-iteration lag of the termination sequence)
+            IF cl.lag = 1 /\ nn = 0 THEN (IF cl.undef = 1 THEN OK ELSE Skip)
+            ELSE
+            LET d == IF cl.lag = 1 THEN old[cl.pi] ELSE new[cl.pi]
+                y == Prob(cl.cond, d).a
+                x == MomentOn(cl.poly, cl.cond, d).a
             IN  IF y.m = <<>> THEN Skip
                 ELSE IF cl.undef = 1 THEN Bad(i, cl, nn, <<x, y>>)
                 ELSE IF RMul(x, RFromZ(cl.q)) = RMul(RFromZ(cl.p), y) THEN OK
